@@ -426,8 +426,9 @@ def gen_script_queue(rnd, dyn=None):
         # a fuller queue: 8-16 events posted in no particular order of time, and a first handler (due at 0) that un-posts several of them
         # from the middle of the heap and posts a few more
         grid = [0.25 * k for k in range(1, 25)]
-        posts = [[rnd.choice(grid), rnd.choice(nodes), rnd.randrange(1, nh)] for _ in range(rnd.randint(8, 16))]
-        first = [['UNPOST', rnd.randrange(len(posts)), False] for _ in range(rnd.randint(1, 4))] + \
+        big = rnd.random() < 0.3          # now and then a really long queue most of which is un-posted again (with many equal times)
+        posts = [[rnd.choice(grid), rnd.choice(nodes), rnd.randrange(1, nh)] for _ in range(rnd.randint(70, 110) if big else rnd.randint(8, 16))]
+        first = [['UNPOST', k_, False] for k_ in rnd.sample(range(len(posts)), (len(posts) * 2) // 3 if big else rnd.randint(1, 4))] + \
                 [['POSTABS', rnd.choice(grid), rnd.randrange(1, nh)] for _ in range(rnd.randint(0, 2))] + \
                 [['UNPOST', rnd.randrange(len(posts) + 2), False] for _ in range(rnd.randint(0, 2))]
         handlers[0] = ['N', first]
